@@ -23,7 +23,9 @@ def main():
             machinery_failure(f"no check registered for {a.prop}")
         mod = REGISTRY[a.prop]
         if a.replay:
-            rc = mod.replay(a.prop, a.replay)
+            from . import replay
+
+            rc = replay.replay(a.prop, a.replay)
         else:
             rc = mod.run(a.prop, a.tier)
         sys.exit(rc)
